@@ -344,3 +344,15 @@ mut("weak-flags-unbounded-from-is-root", "C09", TM, "        if !data.quote_star
 mut("weak-flags-reader-nested-under-root", "C09", TM, "        let start_scope = if is_start_unbounded {\n            if is_parent_root {", "        let start_scope = if is_start_unbounded {\n            if !is_parent_root {", "weak-wire")
 mut("weak-flags-benign-nested-or-root", "C09", TM, "        if !data.quote_start.is_relative() {\n            info |= WEAK_REF_FLAGS_START_UNBOUNDED;", "        let open_start = !data.quote_start.is_relative();\n        if open_start {\n            info |= WEAK_REF_FLAGS_START_UNBOUNDED;", "", kind="benign", also=["C20"])
 mut("weak-flags-benign-root-or-nested", "C09", TM, "        if !data.quote_start.is_relative() {\n            info |= WEAK_REF_FLAGS_START_UNBOUNDED;", "        if data.quote_start.is_root() || data.quote_start.is_nested() {\n            info |= WEAK_REF_FLAGS_START_UNBOUNDED;", "", kind="benign")
+# ---------------------------------------------------------------- rules added during the sixth seeded round
+mut("c07b-delete-set-diffed", "C07", T, "        store.write_blocks_from(self.before_state(), encoder);\n        self.delete_set.encode(encoder);", "        store.write_blocks_from(self.before_state(), encoder);\n        self.delete_set.diff(&self.insert_set).encode(encoder);", "C07.b")
+mut("c02c-pending-ds-only-with-pending", "C02", T, "    if let Some(pending) = store.pending.as_ref() {\n        merge.push_back(pending.update.encode_v1());\n    }\n    if let Some(pending_ds) = store.pending_ds.as_ref() {", "    if let Some(pending) = store.pending.as_ref() {\n        merge.push_back(pending.update.encode_v1());\n    } else if let Some(pending_ds) = store.pending_ds.as_ref() {", "C02.c", also=["C01"])
+mut("identity-name-before-item", "C14", "yrs/src/sticky_index.rs", "        if let Some(ptr) = branch.item {\n            let id = ptr.id().clone();\n            Self::new(IndexScope::Nested(id), assoc)\n        } else if let Some(name) = &branch.name {\n            Self::new(IndexScope::Root(name.clone()), assoc)\n        } else {",
+    "        if let Some(name) = &branch.name {\n            Self::new(IndexScope::Root(name.clone()), assoc)\n        } else if let Some(ptr) = branch.item {\n            let id = ptr.id().clone();\n            Self::new(IndexScope::Nested(id), assoc)\n        } else {", "identity")
+mut("c19j-timeout-zero-dropped", "C19", "yffi/src/lib.rs", "        if options.capture_timeout_millis >= 0 {", "        if options.capture_timeout_millis > 0 {", "C19.j")
+mut("c19j-benign-not-negative", "C19", "yffi/src/lib.rs", "        if options.capture_timeout_millis >= 0 {", "        if !(options.capture_timeout_millis < 0) {", "", kind="benign")
+mut("format-replaced-unrecorded-past-range", "C03", "yrs/src/types/text.rs", "                        if v == value.as_ref() {\n                            negated_attrs.remove(key);\n                        } else {\n                            negated_attrs.insert(key.clone(), *value.clone());\n                        }", "                        if v == value.as_ref() {\n                            negated_attrs.remove(key);\n                        } else if len > 0 {\n                            negated_attrs.insert(key.clone(), *value.clone());\n                        }", "text-units")
+mut("gap-state-shared-between-gaps", "C11", T, "        let mut attrs = HashSet::new();\n        // iterate back until a content item is found", "        let attrs = &mut self.cleanups_seen;\n        // iterate back until a content item is found", None, kind="benign-skip")
+mut("flags-clear-keep-clears-countable", "C04", B, "    pub fn clear_keep(&mut self) {\n        self.clear(ITEM_FLAG_KEEP)", "    pub fn clear_keep(&mut self) {\n        self.clear(ITEM_FLAG_COUNTABLE)", ".flags")
+mut("string-column-counts-chars", "C13", "yrs/src/updates/encoder.rs", "        let utf16_len = str.encode_utf16().count(); // Yjs encodes offsets using utf-16", "        let utf16_len = str.chars().count();", "block-wire", also=["C09"])
+mut("c18g-reset-after-removal-keeps-clock", "C18", AWF, "                state.last_updated = now;\n                state.clock += 1;\n                state.data.replace(json.clone())", "                state.last_updated = now;\n                let prev = state.data.replace(json.clone());\n                if prev.is_some() {\n                    state.clock += 1;\n                }\n                prev", "C18.g")
